@@ -2,6 +2,9 @@ package main
 
 import (
 	"fmt"
+	"go/constant"
+	"go/types"
+	"sort"
 	"strings"
 
 	"golang.org/x/tools/go/ssa"
@@ -113,3 +116,155 @@ func SitesIn(sites []Site, fn *ssa.Function) []ssa.Instruction {
 }
 
 type ssaInstr = ssa.Instruction
+
+// MapUpdatesD lists map-update instructions whose map descriptor matches pat.
+func (p *Prog) MapUpdatesD(fn *ssa.Function, pat string) []ssa.Instruction {
+	var out []ssa.Instruction
+	for _, in := range allInstrs(fn) {
+		if mu, ok := in.(*ssa.MapUpdate); ok && P(pat).Match(p.D(mu.Map)) {
+			out = append(out, in)
+		}
+	}
+	return out
+}
+
+// StringConsts: the string constants in the def-use slice of v (sorted, distinct).
+func (p *Prog) StringConsts(v ssa.Value) []string {
+	set := map[string]bool{}
+	for x := range p.BackSlice(v) {
+		if k, ok := x.(*ssa.Const); ok && k.Value != nil && k.Value.Kind() == constant.String {
+			set[constant.StringVal(k.Value)] = true
+		}
+	}
+	var out []string
+	for s := range set {
+		out = append(out, s)
+	}
+	sort.Strings(out)
+	return out
+}
+
+// CallArg returns the k-th argument of a call instruction, receiver excluded.
+func CallArg(in ssa.Instruction, k int) ssa.Value {
+	cc := callCommon(in)
+	if cc == nil {
+		return nil
+	}
+	args := cc.Args
+	if !cc.IsInvoke() {
+		if f := CalleeOf(cc); f != nil && f.Signature.Recv() != nil && len(args) > 0 {
+			args = args[1:]
+		}
+	}
+	if k >= len(args) {
+		return nil
+	}
+	return args[k]
+}
+
+// InTree: all call sites in the tree matching callee pattern, restricted to functions whose key has
+// one of the prefixes.
+func (p *Prog) CallsInFuncs(calleePat string, fnPrefixes ...string) []Site {
+	var out []Site
+	for _, s := range p.WhoCalls(calleePat) {
+		k := p.FuncKey(s.Fn)
+		for _, pre := range fnPrefixes {
+			if strings.HasPrefix(k, pre) {
+				out = append(out, s)
+				break
+			}
+		}
+	}
+	return out
+}
+
+// FuncOfGlobal finds the function literal assigned to a package-level variable in its package's
+// init (var f = func(...) {...}).
+func (p *Prog) FuncOfGlobal(pkgShort, name string) *ssa.Function {
+	path := p.Mod + "/" + pkgShort
+	sp := p.SPkgs[path]
+	if sp == nil {
+		return nil
+	}
+	g, ok := sp.Members[name].(*ssa.Global)
+	if !ok {
+		return nil
+	}
+	init := sp.Func("init")
+	if init == nil {
+		return nil
+	}
+	for _, in := range allInstrs(init) {
+		st, ok := in.(*ssa.Store)
+		if !ok || st.Addr != g {
+			continue
+		}
+		switch v := st.Val.(type) {
+		case *ssa.MakeClosure:
+			if f, ok := v.Fn.(*ssa.Function); ok {
+				return f
+			}
+		case *ssa.Function:
+			return v
+		}
+	}
+	return nil
+}
+
+// SetEq reports whether two sorted string slices are equal.
+func SetEq(a, b []string) bool {
+	if len(a) != len(b) {
+		return false
+	}
+	for i := range a {
+		if a[i] != b[i] {
+			return false
+		}
+	}
+	return true
+}
+
+// StructFields lists the field names of a named struct type of the tree (embedded fields by type name).
+func (p *Prog) StructFields(pkgShort, typeName string) []string {
+	n := p.NamedType(pkgShort, typeName)
+	if n == nil {
+		return nil
+	}
+	st, ok := n.Underlying().(*types.Struct)
+	if !ok {
+		return nil
+	}
+	var out []string
+	for i := 0; i < st.NumFields(); i++ {
+		out = append(out, st.Field(i).Name())
+	}
+	return out
+}
+
+// FieldsStoredIn: names of fields of typeName that are directly stored in the given functions.
+func (p *Prog) FieldsStoredIn(typeName string, fns ...*ssa.Function) map[string]bool {
+	out := map[string]bool{}
+	for _, fn := range fns {
+		if fn == nil {
+			continue
+		}
+		for _, in := range allInstrs(fn) {
+			st, ok := in.(*ssa.Store)
+			if !ok {
+				continue
+			}
+			fa, ok := st.Addr.(*ssa.FieldAddr)
+			if !ok {
+				continue
+			}
+			t := fa.X.Type()
+			if pt, ok := t.Underlying().(*types.Pointer); ok {
+				t = pt.Elem()
+			}
+			if n, ok := t.(*types.Named); ok && n.Obj().Name() == typeName {
+				out[n.Underlying().(*types.Struct).Field(fa.Field).Name()] = true
+			}
+		}
+	}
+	return out
+}
